@@ -786,7 +786,8 @@ def vam_stalls(h: History, nominal_us: int) -> list[dict]:
         prev_t = None
         maxp = 0
         for r in act["reports"]:
-            ok = is_position_report(r["tpv"]) and r.get("vbs") not in ("VRU_IDLE", "VRU_PASSIVE")
+            # the VAM rules are stated on the reports' timestamps: a report without one does not count as position data
+            ok = is_position_report(r["tpv"]) and "time" in r["tpv"] and r.get("vbs") not in ("VRU_IDLE", "VRU_PASSIVE")
             cont = ok and prev_t is not None and (r["t"] - prev_t) <= 2 * nominal_us + 100_000
             if not ok:
                 run_start, prev_t, maxp, last_vam_t = None, None, 0, None
